@@ -64,6 +64,11 @@ def gen(tier, rng):
             clock = [t0] + [t0 + (j + 1) * P.NS for j in range(len(sc))] + [t0 + 11 * P.NS, t0 + 12 * P.NS]
             for tmo, ex in ((None, 10), (10 * P.NS, 1000)):
                 base.append((P.line("sync", "1", None, tmo, ex, True, clock, sc + ["success"]), "deadline-right-after-" + last))
+    for req_ok in (True, False):
+        for tmo in (None, 3 * P.NS, P.MAXDELTA, P.MAXDELTA + 1, P.U64 * P.NS + 999999999):
+            for ex in (5, P.U64):
+                t0 = 1700000000 * P.NS
+                base.append((P.line("sync", "1", None, tmo, ex, req_ok, [t0, t0, t0 + P.NS, t0 + 2 * P.NS, t0 + 4 * P.NS], ["pending", "success"]), "pre-flight-failures"))
     # the poll loop
     for s in P.scripts(3 if tier == "quick" else 4):
         for term in ("success", "denied", "malformed200"):
